@@ -138,6 +138,15 @@ def make(name, mode, ymode=None, **extra):
             return DeltaChange(delta_type="additive", **kw)
         if name == "DC-multiplicative":
             return DeltaChange(delta_type="multiplicative", **kw)
+        if name.endswith("-flux"):
+            return make(name[:-5], mode, ymode, **extra)
+        if name in ("QM-sfcWind", "QM-hurs"):  # iteratively fitted families via the documented defaults (gamma / beta)
+            return QuantileMapping.from_variable(name[3:], **kw)
+        if name.startswith(("QM-gamma-", "QM-beta-")):
+            dist = scipy.stats.gamma if name.startswith("QM-gamma-") else scipy.stats.beta
+            return QuantileMapping(distribution=dist, mapping_type="parametric", detrending=name.split("-", 2)[2], **kw)
+        if name == "CDFt-SSR":  # the precipitation default: stochastic singularity removal
+            return CDFt(delta_shift="additive", SSR=True, **kw, **years_kw(ymode))
         if name.startswith("QM-parametric-"):
             return QuantileMapping(distribution=scipy.stats.norm, mapping_type="parametric", detrending=name[len("QM-parametric-"):],
                                    cdf_threshold=float(extra.get("t", 1e-10)), **kw)
@@ -158,9 +167,13 @@ def make(name, mode, ymode=None, **extra):
 
 ORACLE_CONFIGS = ["LS-additive", "LS-multiplicative", "DC-additive", "DC-multiplicative", "QM-parametric-additive",
                   "QM-parametric-no_detrending", "QM-parametric-multiplicative", "ECDFM", "QDM-absolute", "QDM-relative",
-                  "CDFt-additive", "CDFt-multiplicative"]
-MULT = {"LS-multiplicative", "DC-multiplicative", "QM-parametric-multiplicative", "QDM-relative", "CDFt-multiplicative"}
-HAS_YEARS = {"QDM-absolute", "QDM-relative", "CDFt-additive", "CDFt-multiplicative"}
+                  "CDFt-additive", "CDFt-multiplicative", "CDFt-SSR", "QM-gamma-multiplicative", "QM-gamma-no_detrending",
+                  "QM-beta-additive", "QM-sfcWind", "QM-hurs", "LS-multiplicative-flux", "DC-multiplicative-flux"]
+MULT = {"LS-multiplicative", "DC-multiplicative", "QM-parametric-multiplicative", "QDM-relative", "CDFt-multiplicative",
+        "CDFt-SSR", "LS-multiplicative-flux", "DC-multiplicative-flux"}
+HAS_YEARS = {"QDM-absolute", "QDM-relative", "CDFt-additive", "CDFt-multiplicative", "CDFt-SSR"}
+ITER_FIT = {"QM-gamma-multiplicative", "QM-gamma-no_detrending", "QM-beta-additive", "QM-sfcWind", "QM-hurs"}  # MLE by optimiser
+FLUX = [1e-8, 1e-6, 1e-9, 1e-5]  # pr in kg m-2 s-1 has this magnitude
 
 
 LARGE_AT = {"quick": (0,), "thorough": (0, 7, 19)}  # which occurrences of a CDFt configuration are "large sample" cases
@@ -180,6 +193,9 @@ def gen_case(rng, name, tier, j=1):
         nyO, nyF = rng.randint(2, 4), rng.randint(1, 4 if tier == "quick" else 6)
         if S == 1 and name.startswith(("CDFt", "QDM")):
             nyO, nyF = 2, rng.randint(1, 2)  # 366 windows, each with a quantile pipeline: keep it small
+        if name in ITER_FIT and S < 15:
+            S = rng.choice([15, 31, 61])  # two optimiser fits per window
+            mode = [max(S, L), S]
     else:
         mode = None
         nyO, nyF = rng.randint(1, 8), rng.randint(1, 8)
@@ -191,6 +207,8 @@ def gen_case(rng, name, tier, j=1):
     rec = dict(config=name, mode=mode, ymode=ymode, nyO=nyO, nyF=nyF, y0=rng.randint(1950, 2000), yF=rng.randint(2001, 2080),
                np_seed=rng.randint(0, 2**31 - 1), short=(not windowed and not large and rng.random() < 0.3),
                sd_ratio=rng.choice([0.5, 1.0, 1.0, 2.0]), shift=rng.choice([-6.0, -1.0, 0.0, 2.0, 10.0]), trend=rng.choice([0.0, 0.0, 0.5]))
+    if name.endswith("-flux"):
+        rec["flux"] = FLUX[j % len(FLUX)]
     if name == "QDM-relative":
         rec["censor"] = j % 2 == 0  # every other case with censor_values_to_zero (the precipitation default)
         # ... and then with cm_future values EXACTLY at the censoring threshold ("at or above" must survive)
@@ -217,9 +235,23 @@ def build(rec):
                 # threshold inside the debiaser is not a matter of rounding
                 F[nprs.choice(F.size, size=k_at, replace=False)] = thr
             extra = dict(censor=rec.get("censor", False), censor_thr=thr)
+        elif rec["config"] == "CDFt-SSR":
+            # strictly positive amounts (no exact zeros); a drier future whose smallest amounts lie below every obs amount
+            obs = pr_series(nprs, dO, 3.0, floor=0.05)
+            F = pr_series(nprs, dF, 3.0 * 0.3 * rec["sd_ratio"], floor=0.0)
+            F = np.where(F > 0, F, 1e-3)
         else:
             obs = pr_series(nprs, dO, 3.0, floor=0.01)
             F = pr_series(nprs, dF, 3.0 * rec["sd_ratio"] * 1.5, floor=0.01)
+            if rec.get("flux"):
+                obs, F = obs * rec["flux"], F * rec["flux"]
+    elif rec["config"] in ("QM-gamma-multiplicative", "QM-gamma-no_detrending", "QM-sfcWind"):
+        obs = nprs.gamma(3.0, 1.5, dO.size) + 0.2
+        F = nprs.gamma(3.0, 1.5 * rec["sd_ratio"] ** 0.5, dF.size) + 0.2
+    elif rec["config"] in ("QM-beta-additive", "QM-hurs"):
+        k100 = 100.0 if rec["config"] == "QM-hurs" else 1.0
+        obs = k100 * (0.02 + 0.96 * nprs.beta(5.0, 2.0, dO.size))
+        F = k100 * (0.02 + 0.96 * nprs.beta(5.0 * rec["sd_ratio"] ** 0.5, 2.0, dF.size))
     else:
         obs = tas_series(nprs, dO, 283.0, 3.0)
         F = tas_series(nprs, dF, 283.0 + rec["shift"], 3.0 * rec["sd_ratio"], trend=rec["trend"])
@@ -227,20 +259,27 @@ def build(rec):
 
 
 # ------------------------------------------------------------------ the NoClip guard of parametric QM on the real code
-def qm_clip_mask(deb, obs, F, dO, dF):
-    """True where `threshold_cdf_vals` changes the cdf value of the (detrended) future value — computed with the real
-    distribution, the real detrending formula and, in running-window mode, the real window index sets"""
+def qm_guard(deb, obs, F, dO, dF, upper_margin=0.0):
+    """(clip, roundtrip): `clip` is True where `threshold_cdf_vals` changes the cdf value of the (detrended) future value;
+    `roundtrip[i] = |ppf(cdf(x_i; fit), fit) - x_i|` (re-trended) is what the distribution's own cdf / ppf pair loses with ONE
+    fit of obs — the numerical floor of the identity.  Computed with the real distribution, the real detrending formula
+    and, in running-window mode, the real window index sets."""
     t = deb.cdf_threshold
 
     def one(o, f):
         if deb.detrending == "additive":
-            x = f - (np.mean(f) - np.mean(o))
+            delta = np.mean(f) - np.mean(o)
+            x = f - delta
         elif deb.detrending == "multiplicative":
-            x = f / (np.mean(f) / np.mean(o))
+            delta = np.mean(f) / np.mean(o)
+            x = f / delta
         else:
             x = f
-        c = deb.distribution.cdf(x, *deb.distribution.fit(o))
-        return (c < t) | (c > 1 - t)
+        fit = deb.distribution.fit(o)
+        c = deb.distribution.cdf(x, *fit)
+        back = deb.distribution.ppf(np.clip(c, t, 1 - t), *fit)
+        back = back + delta if deb.detrending == "additive" else (back * delta if deb.detrending == "multiplicative" else back)
+        return (c < t) | (c > 1 - max(t, upper_margin)), np.abs(back - f)
 
     if not deb.running_window_mode:
         return one(obs, F)
@@ -250,12 +289,19 @@ def qm_clip_mask(deb, obs, F, dO, dF):
         warnings.simplefilter("ignore")
         doyO, doyF = day_of_year(dO), day_of_year(dF)
     mask = np.zeros(F.size, dtype=bool)
+    rt = np.zeros(F.size)
     for c, idx in deb.running_window.use(doyF):
         iwO = deb.running_window.get_indices_vals_in_window(doyO, c)
         iwF = deb.running_window.get_indices_vals_in_window(doyF, c)
-        m = one(obs[iwO], F[iwF])
-        mask[idx] = m[np.isin(iwF, idx)]
-    return mask
+        m, r = one(obs[iwO], F[iwF])
+        sel = np.isin(iwF, idx)
+        mask[idx] = m[sel]
+        rt[idx] = r[sel]
+    return mask, rt
+
+
+def qm_clip_mask(deb, obs, F, dO, dF, upper_margin=0.0):
+    return qm_guard(deb, obs, F, dO, dF, upper_margin)[0]
 
 
 # ------------------------------------------------------------------ the oracle
@@ -267,8 +313,10 @@ def run_case(rec):
     mode = tuple(rec["mode"]) if rec["mode"] else None
     ymode = tuple(rec["ymode"]) if rec["ymode"] else None
     deb = make(name, mode, ymode, **data["extra"])
-    scale = float(max(1.0, np.max(np.abs(obs)), np.max(np.abs(F))))
-    tol = 1e-8 * scale
+    scale = float(max(np.max(np.abs(obs)), np.max(np.abs(F))))  # relative to the data's magnitude (pr fluxes are ~1e-6)
+    # iteratively fitted families: both fits are the same call on equal data, so the identity holds to ~1e-12 relative on
+    # the unchanged code (measured: <= 4e-13); 1e-9 leaves three orders of magnitude
+    tol = (1e-9 if name in ITER_FIT else 1e-8) * scale
     info = {"n_obs": int(obs.size), "n_fut": int(F.size), "skipped_clipped": 0, "tie_free": tie_free(obs, F)}
     with warnings.catch_warnings(), np.errstate(all="ignore"):
         warnings.simplefilter("ignore")
@@ -280,9 +328,14 @@ def run_case(rec):
             out = deb.apply_location(obs, obs.copy(), F, dO, dO, dF)
             want, what = F, "cm_future"
         keep = np.ones(want.size, dtype=bool)
-        if name.startswith("QM-parametric"):
-            clip = qm_clip_mask(deb, obs, F, dO, dF)
+        if name.startswith("QM-parametric") or name in ITER_FIT:
+            # ITER_FIT: also skip the ill-conditioned upper tail (1 - cdf < 1e-5: ppf(cdf(x)) loses digits there)
+            clip, rt = qm_guard(deb, obs, F, dO, dF, upper_margin=1e-5 if name in ITER_FIT else 0.0)
             keep = ~clip
+            if name in ITER_FIT:
+                # scipy's cdf / ppf pair of a fitted beta / gamma is itself only accurate to ~1e-9 relative for some fitted
+                # shapes: allow ten times what ONE fit loses (a second, different fit for obs loses 1e-7 ... 1e-5)
+                tol = tol + 10.0 * np.where(np.isfinite(rt), rt, 0.0)
             info["skipped_clipped"] = int(clip.sum())
     if out.shape != want.shape:
         return f"{name}: output shape {out.shape} != {want.shape}", info
@@ -291,9 +344,12 @@ def run_case(rec):
     err = np.where(keep, err, 0.0)
     worst = int(np.argmax(err))
     info["max_err"] = float(err[worst])
-    if err[worst] > tol:
+    excess = err - tol
+    worst = int(np.argmax(excess))
+    if excess[worst] > 0:
+        tw = float(tol[worst]) if isinstance(tol, np.ndarray) else tol
         return (f"{name} (windows {mode}, year windows {ymode}): with cm_hist == obs the output differs from {what} by {err[worst]:.3g} "
-                f"at step {worst} ({out[worst]!r} vs {want[worst]!r}; tolerance {tol:.3g}); {int((err > tol).sum())} of {want.size} steps differ"), info
+                f"at step {worst} ({out[worst]!r} vs {want[worst]!r}; tolerance {tw:.3g}); {int((excess > 0).sum())} of {want.size} steps differ"), info
     return None, info
 
 
@@ -309,6 +365,99 @@ def other_pairs_note(rng, res):
             out = make(name, None, None).apply_location(obs, obs.copy(), F)
         notes[name] = float(np.max(np.abs(out - F)))
     res.extra["cdft_other_pairs_max_deviation_unequal_sizes"] = notes
+
+
+# ------------------------------------------------------------------ the public `apply` on small grids, any input dtype
+DTYPE_COMBOS = [("float64", "float64", "int32"), ("int64", "int64", "int64"), ("float64", "int32", "int64"),
+                ("float32", "float32", "float32"), ("int32", "float64", "float64"), ("float64", "float64", "float64")]
+# integer data is tied: only transfer functions that are continuous in the data (mean shifts, parametric maps)
+APPLY_DEBIASERS = {"C03": ["LS-additive", "QM-parametric-additive", "ECDFM", "DC-additive"],
+                   "C01": ["LS-additive", "QM-parametric-additive", "ECDFM", "DC-additive", "SDM-absolute"]}
+
+
+def gen_apply_case(rng, prop, k):
+    names = APPLY_DEBIASERS[prop]
+    combo = DTYPE_COMBOS[k % len(DTYPE_COMBOS)]
+    name = names[k % len(names)]
+    if "float32" in combo and not name.startswith(("LS-", "DC-")):
+        name = "LS-additive"  # single precision: only the mean shifts are judged (tolerance of float32 arithmetic)
+    return dict(config=f"apply/{name}", prop=prop, debiaser=name, dtypes=list(combo), shape=rng.choice([[1, 1], [1, 2], [2, 1]]),
+                n=rng.randint(200, 900), np_seed=rng.randint(0, 2**31 - 1), shift=rng.choice([-6.0, 2.0, 10.0]), parallel=False)
+
+
+def run_apply_case(rec):
+    """`debiaser.apply(obs, cm_hist, cm_future)` on a t x nx x ny grid with the given dtypes.  C03: cm_hist = obs value for
+    value => out = cm_future; C01: cm_future = cm_hist value for value => observed mean per cell (DeltaChange: out = obs)"""
+    nprs = np.random.RandomState(rec["np_seed"])
+    prop, name = rec["prop"], rec["debiaser"]
+    dtO, dtH, dtF = rec["dtypes"]
+    nx, ny = rec["shape"]
+    n = rec["n"]
+    integer = any(d.startswith("int") for d in rec["dtypes"])
+    cell = np.arange(nx * ny).reshape(1, nx, ny)
+
+    def series(mean, sd):
+        x = mean + 3.0 * cell + sd * nprs.standard_normal((n, nx, ny))  # every cell has its own climatology
+        return np.round(x) if integer else x
+
+    a, b = series(283.0, 3.0), series(283.0 + rec["shift"], 4.0)
+    if name == "SDM-absolute":
+        from ibicus.debias import ScaledDistributionMapping
+
+        with warnings.catch_warnings():
+            warnings.simplefilter("ignore")
+            deb = ScaledDistributionMapping.from_variable("tas", running_window_mode=False)
+    else:
+        deb = make(name, None)
+    single = "float32" in rec["dtypes"]
+    dc = name.startswith("DC-")
+    if prop == "C03" and not dc:
+        obs, H, F = a.astype(dtO), a.astype(dtH), b.astype(dtF)
+    else:  # C01, and DeltaChange in both checks: the model is unchanged
+        obs, H, F = a.astype(dtO), b.astype(dtH), b.astype(dtF)
+    with warnings.catch_warnings(), np.errstate(all="ignore"):
+        warnings.simplefilter("ignore")
+        kw = dict(parallel=True, nr_processes=2) if rec.get("parallel") else {}
+        out = deb.apply(obs, H, F, progressbar=False, **kw)
+    scale = float(max(np.max(np.abs(a)), np.max(np.abs(b))))
+    tol = (1e-5 if single else 1e-8) * scale
+    where = f"apply/{name} dtypes (obs, cm_hist, cm_future) = {tuple(rec['dtypes'])}, grid {n}x{nx}x{ny}{', parallel' if rec.get('parallel') else ''}"
+    info = {"n": n}
+    if out.shape != F.shape and not dc:
+        return f"{where}: output shape {out.shape}", info
+    if dc:
+        err = float(np.max(np.abs(out - a)))
+        return (f"{where}: DeltaChange with an unchanged model does not return obs (max deviation {err:.3g})" if not err <= tol else None), info
+    if prop == "C03":
+        errs = np.abs(out - b)
+        if name.startswith("QM-parametric"):  # values clipped by cdf_threshold are outside the statement (NoClip)
+            for i in range(nx):
+                for j in range(ny):
+                    errs[qm_clip_mask(deb, a[:, i, j], b[:, i, j], None, None), i, j] = 0.0
+        err = float(np.max(errs))
+        info["max_err"] = err
+        if not err <= tol:
+            return f"{where}: with cm_hist == obs the output differs from cm_future by {err:.3g} (tolerance {tol:.3g})", info
+        return None, info
+    resid = np.abs(out.astype(float).mean(axis=0) - a.mean(axis=0))
+    info["max_residual"] = float(resid.max())
+    if not resid.max() <= tol:
+        i, j = np.unravel_index(int(np.argmax(resid)), resid.shape)
+        return (f"{where}: residual mean bias {float(resid.max()):.3g} in cell ({i}, {j}) (original bias "
+                f"{float(b[:, i, j].mean() - a[:, i, j].mean()):+.3g}; tolerance {tol:.3g})"), info
+    return None, info
+
+
+def apply_cases(rng, tier, res, problems, prop, extra=()):
+    recs = [gen_apply_case(rng, prop, k) for k in range(6 if tier == "quick" else 36)] + list(extra)
+    for rec in recs:
+        try:
+            p, info = run_apply_case(rec)
+        except Exception as ex:  # noqa: BLE001
+            p, info = f"{rec['config']}: {type(ex).__name__}: {str(ex)[:200]}", {}
+        res.count(("apply", rec["debiaser"], tuple(rec["dtypes"]), tuple(rec["shape"]), rec.get("parallel", False)), True)
+        if p:
+            problems.append((p, rec))
 
 
 def utils_inverse_large(rng, tier, res, problems):
@@ -359,7 +508,7 @@ def run(tier, res, force_search=False):
         res.extra["mismatches"] = mism[:10]
 
     # ---- the property's oracle on the real code
-    n_or = 36 if tier == "quick" else 420
+    n_or = 2 * len(ORACLE_CONFIGS) if tier == "quick" else 24 * len(ORACLE_CONFIGS)
     if force_search or not lean_ok or mism:
         n_or *= 3
     problems, skipped, compared = [], 0, 0
@@ -380,6 +529,7 @@ def run(tier, res, force_search=False):
     res.extra["oracle"] = {"cases": n_or, "steps_compared": compared, "qm_steps_skipped_as_clipped": skipped, "tolerance": "1e-8*max(1,|values|)"}
     other_pairs_note(rng, res)
     utils_inverse_large(rng, tier, res, problems)
+    apply_cases(rng, tier, res, problems, PROP)
 
     seen = set()
     for p, rec in problems:
@@ -399,6 +549,10 @@ def replay(data):
     if not rec:
         print("replay: no failing input recorded (broken tie):", data.get("broken"))
         return 1
+    if str(rec.get("config", "")).startswith("apply/"):
+        p, info = run_apply_case(rec)
+        print("replay", rec["config"], "->", p or "property holds on this input", info)
+        return 1 if p else 0
     if rec.get("config") == "utils-ecdf-iecdf":
         import random as _r
 
